@@ -268,7 +268,30 @@ func mergeConfigs(ctx context.Context, src Config, dest *Config) {
 		srcFieldValue := srcValue.Field(i)
 		destFieldValue := destValue.Elem().Field(i)
 
-		if srcFieldValue.Kind() == reflect.Map {
+		if srcReplace, ok := srcFieldValue.Interface().(map[string]map[string]*ReplaceType); ok {
+			// replace-type is inherited like every other parameter: entries that the
+			// more specific level does not set itself come from the parent.
+			if len(srcReplace) == 0 {
+				continue
+			}
+			destReplace, _ := destFieldValue.Interface().(map[string]map[string]*ReplaceType)
+			if destReplace == nil {
+				destReplace = map[string]map[string]*ReplaceType{}
+				destFieldValue.Set(reflect.ValueOf(destReplace))
+			}
+			for pkgPath, srcTypes := range srcReplace {
+				if destReplace[pkgPath] == nil {
+					destReplace[pkgPath] = map[string]*ReplaceType{}
+				}
+				for typeName, replacement := range srcTypes {
+					if _, exists := destReplace[pkgPath][typeName]; exists || replacement == nil {
+						continue
+					}
+					replacementCopy := *replacement
+					destReplace[pkgPath][typeName] = &replacementCopy
+				}
+			}
+		} else if srcFieldValue.Kind() == reflect.Map {
 			srcMap, ok := srcFieldValue.Interface().(map[string]any)
 			if !ok {
 				log.Debug().Msg("field value is not `any`, skipping merge")
